@@ -75,13 +75,18 @@ def run_shard(rec, tier, seed, shard, nshards):
             batch_arg = batch if (batch or rng.random() < 0.5) else None
             cand = sorted(set(unobserved) - set(batch))
             # prescribed scores: finite, -inf, heavy ties
-            style = str(rng.choice(["distinct", "ties", "neginf", "allequal"]))
+            style = str(rng.choice(["distinct", "ties", "neginf", "allequal", "nearly-equal"]))
+            near_base = float(rng.choice([1.0, -1.0, 123456.0, 1e-12, -3e-9, 0.0]))
+            near_step = abs(near_base) * float(rng.choice([1e-7, 3e-6, 1e-10])) if near_base else 1e-11
             table = {}
             for pid in plate_rows:
                 if style == "distinct":
                     table[pid] = float(rng.normal())
                 elif style == "ties":
                     table[pid] = float(rng.integers(0, 3))
+                elif style == "nearly-equal":
+                    # strictly different scores that an approximate comparison would call equal
+                    table[pid] = near_base + near_step * float(rng.integers(-3, 4))
                 elif style == "neginf":
                     table[pid] = float(rng.choice([float("-inf"), 0.0, 1.0, float(rng.normal())]))
                 else:
